@@ -77,7 +77,7 @@ def evaluate(scn: dict[str, Any], tag: str) -> dict[str, Any]:
     if mode != "normal":
         flags.append(f"--follow-imports={mode}")
     h = histsim.History(scn, f"c03-{os.getpid()}-{tag}o", stall_ok=scn.get("stall_ok", False))
-    rng = kit.rng_for(PROP, "req", kit.digest(scn))
+    rng = kit.family_rng(PROP, "req", kit.digest(scn))
     info: dict[str, Any] = {"steps": 0, "increments": 0, "nontrivial_steps": 0}
     violation = None
     try:
@@ -174,7 +174,7 @@ def evaluate(scn: dict[str, Any], tag: str) -> dict[str, Any]:
 
 
 def gen(k: int, tier: str) -> dict[str, Any]:
-    rng = kit.rng_for(PROP, "scn", k)
+    rng = kit.family_rng(PROP, "scn", k)
     scn = histsim.gen_history_scenario(rng, cfg=histsim.STORE_CONFIGS[0], max_steps=6 if tier == "quick" else 14, clock_mode=rng.choice(["plain", "wild"]))
     scn["mode"] = rng.choice(["normal", "normal", "error", "skip"])
     for st in scn["steps"]:
@@ -217,8 +217,8 @@ def family_size() -> int:
 def gen_corpus(k: int, tier: str) -> dict[str, Any] | None:
     """Corpus case x history transform -> raw-file scenario."""
     cases = fg_cases()
-    member = k if tier == "thorough" else kit.rng_for(PROP, "corpus", k).randrange(family_size())
-    rng = kit.rng_for(PROP, "corpus-member", member)
+    member = k  # member index of the finite family
+    rng = kit.family_rng(PROP, "corpus-member", member)
     c = cases[member % len(cases)]
     tr = TRANSFORMS[(member // len(cases)) % len(TRANSFORMS)]
     style = STYLES[(member // (len(cases) * len(TRANSFORMS))) % len(STYLES)]
@@ -395,7 +395,7 @@ def run(tier: str) -> int:
     rep.assumptions = ["a content-changing edit changes (mtime, size) of the file (fswatcher hashes only then)", "edits happen between requests", "the oracle also runs in daemon mode (fine_grained_incremental), because daemon mode changes some message texts by design"]
     n_model = 110 if tier == "quick" else 3000
     n_corpus = 170 if tier == "quick" else family_size()
-    items = [("model", k, tier) for k in range(n_model)] + [("corpus", k, tier) for k in range(n_corpus)]
+    items = [("model", k, tier) for k in range(n_model)] + [("corpus", k, tier) for k in kit.sample_indices(PROP, "corpus", family_size(), n_corpus)]
     # The generated-model family is exploration only (DESIGN 9.7): it reaches genuine fine-grained
     # defects faster than they can be listed one by one, and being infinite it cannot be swept, so the
     # registered check is the finite corpus x transform family. VERIF_C03_FAMILY=model|all enables it.
